@@ -13,7 +13,7 @@ RULE = ("E-INPUT: every ordered pair of end points from {0, +-m x 10^e : m in 11
         "of the step, inside the domain, complete at both ends, count bounds, distinct texts that read back. "
         "Non-trivial: >= 2 ticks.")
 ASSUMPTIONS = ["float tolerances: 1e-6 of a step for gap equality/multiples/completeness, 1e-9 step for in-domain, 1e-3 step for read-back"]
-REQUIRED_COUNTERS = ("tick_sets", "reversed_domains", "step_1", "step_2", "step_5", "history_sequences")
+REQUIRED_COUNTERS = ("tick_sets", "reversed_domains", "step_1", "step_2", "step_5", "history_sequences", "threshold_cases")
 EPS = 2.220446049250313e-16
 TICK_CAP = 10000
 
@@ -179,15 +179,44 @@ def judge_history(a, b, kind, m, m2, acc=None):
     return None
 
 
+CRITICAL = (1 / 0.15, 1 / 0.35, 1 / 0.75)  # span / (m * 10^k) at which the step switches between 1, 2, 5, 10
+
+
+def threshold_domains(m):
+    """Domains whose span per requested tick sits on and just beside the three switching thresholds, with ends on
+    and off the tick grid (where the tick count reaches its extremes)."""
+    for crit in CRITICAL:
+        for rel in (0.0, 1e-9, -1e-9, 1e-3, -1e-3, 1e-2, -1e-2, 4e-3):
+            for e in (-2, 0, 3):
+                span = m * crit * (1 + rel) * 10.0 ** e
+                for start in (0.0, -0.25 * span / m, 7.0 * 10.0 ** e):
+                    yield start, start + span
+
+
 def plan(tier, seed):
     n = 64 if tier == "quick" else 256
     shards = [{"vals": "grid", "tier": tier, "mod": n, "rem": r} for r in range(n)]
     shards.append({"vals": "seed", "seed": seed, "mod": 1, "rem": 0})
+    for m0 in range(1, 101, 10):
+        shards.append({"vals": "threshold", "ms": list(range(m0, min(101, m0 + 10)))})
     return shards
 
 
 def run_shard(shard):
     acc = Acc()
+    if shard["vals"] == "threshold":
+        for m in shard["ms"]:
+            for a, b in threshold_domains(m):
+                for x, y in ((a, b), (b, a)):
+                    bad = judge(x, y, m, acc)
+                    acc.evals += 1
+                    acc.states += 1
+                    acc.trans += 1
+                    acc.counters["threshold_cases"] += 1
+                    if bad:
+                        acc.violation({"a": x, "b": y, "m": m}, bad[0], bad[1], order=(3, m, 0))
+        acc.sample({"a": a, "b": b, "m": m})
+        return acc
     vals = lingrid.values(shard["tier"]) if shard["vals"] == "grid" else lingrid.seeded_values(shard["seed"])
     for i, (a, b) in enumerate(lingrid.pairs(vals)):
         if i % shard["mod"] != shard["rem"]:
